@@ -3,7 +3,7 @@ Stream for C14 (robustness): arbitrary command lines fed to the real debugger Sh
 """
 import random
 
-from . import dbg, proggen
+from . import dbg, dbgsem, proggen
 
 COMMANDS = ["asm", "assign", "break", "continue", "clear", "dis", "doc", "execute", "goto", "help", "info", "list", "ll", "next",
             "off", "on", "print", "restart", "step", "undo", "a", "b", "c", "cl", "e", "g", "h", "i", "l", "n", "p", "s", "u", "q?", "x"]
@@ -53,7 +53,9 @@ def check(seed, n):
     states = ["start", "middle", "finished", "pc-outside", "in-call", "weird-stack"]
     hist = {}
     for k in range(n):
-        text, feats = proggen.generate(seed * 733 + k, size=rng.choice([3, 6, 10]), wild=(k % 6 == 0))
+        text = dbgsem.gen_program(rng, seed * 733 + k)
+        if dbgsem.load_terminating(text, {"big_stack": k % 4 == 0}) is None:
+            continue
         shell, st = dbg.make_shell(text, {"big_stack": k % 4 == 0})
         if shell is None:
             continue
@@ -65,8 +67,12 @@ def check(seed, n):
         for _ in range(rng.choice([1, 3, 6])):
             line = gen_line(rng, labels)
             done.append(line)
-            out, errs, exc, cont = dbg.feed(shell, line)
+            out, errs, exc, cont = dbg.feed(shell, line, limit=5)
             evals += 1
+            if exc and exc.startswith("Hang") and (state in ("pc-outside", "weird-stack") or any(
+                    w in " ".join(done) for w in ("=", "assign", "exec", "goto", " g ", "on ", "off ", "e "))):
+                # the user's own changes to the machine can make the program loop for ever: not a hang of the debugger
+                break
             seen.add((state, line))
             hist[state] = hist.get(state, 0) + 1
             if exc:
